@@ -307,7 +307,7 @@ def main(argv):
                 confirmed_new.append((('harness.' + pid, b['harness'], b['cfg']), v, b['result']))
 
     # ---- report
-    rdir = os.path.join(VERIF, 'replays', pid)
+    rdir = os.path.join(os.environ.get('VERIF_EVIDENCE_DIR') or VERIF, 'replays', pid)
     exit_code = 0
     lines = []
     os.makedirs(rdir, exist_ok=True)
@@ -376,8 +376,9 @@ def main(argv):
         ],
         wall_s=round(wall, 2), violations=len(confirmed_new),
     )
-    os.makedirs(os.path.join(VERIF, 'evidence'), exist_ok=True)
-    json.dump(ev, open(os.path.join(VERIF, 'evidence', pid + '.json'), 'w'), indent=1, default=str)
+    evdir = os.environ.get('VERIF_EVIDENCE_DIR') or os.path.join(VERIF, 'evidence')      # mutant-testing runs write elsewhere
+    os.makedirs(evdir, exist_ok=True)
+    json.dump(ev, open(os.path.join(evdir, pid + '.json'), 'w'), indent=1, default=str)
     print('[%s %s] paths=%d completed=%d obligations=%d discharged=%d undecided=%d thin=%d unsupported=%d incomplete=%d '
           'queries=%d solver=%.1fs unknown=%d witnesses ok=%d bad=%d wall=%.1fs' % (
               pid, tier, agg['paths'], agg['completed'], agg['obligations'], agg['discharged'], agg['undecided'], agg['thin'],
